@@ -134,6 +134,15 @@ CHECKS += [
     },
 ]
 
+CHECKS += [
+    {
+        "property_id": "C16", "engine": "symx", "category": "model_checking",
+        "technique": "symbolic execution of LI process tomography, gate fidelity and the MLE forward model / TP projection for a unitary with symbolic angles + z3 (trigonometric-polynomial identities; constant pseudo-inverses certified exactly)",
+        "text": "For every single-qubit unitary V (three symbolic angles; V1 (x) V2 on two qubits in thorough) with a noiseless-oracle callback: linear inversion returns choi_from_unitary(V) entrywise; gate fidelity equals (|tr(T^dagger V)|^2+d)/(d(d+1)) for every target T and 1 for T=V; the MLE forward model of choi_from_unitary(V) is proportional to the measured frequencies (necessary for the likelihood optimum to be the true process) and the TP projection yields identity partial trace. NOT decided (not encodable): positivity / trace preservation / fidelity >= 0.99 of the MLE output (iterative descent with eigh) and the sqrtm-based fidelity values.",
+        "design_ref": "DESIGN.md section 4 C16", "note": SYMX_NOTE + " np.linalg.pinv/solve on constant matrices are computed numerically, rationalised and certified exactly before use.",
+    },
+]
+
 _TODO = "check not built yet in this round; see DESIGN.md section 4 for the plan"
 NOT_APPLICABLE = [
     {"property_id": f"C{i:02d}", "reason": _TODO} for i in range(2, 20) if f"C{i:02d}" not in {c["property_id"] for c in CHECKS}
